@@ -115,7 +115,7 @@ ELEM_NAMED = {
 }
 PAIR = {
     'std::iter::Iterator::zip': 'zip', 'std::iter::Iterator::chain': 'chain', 'itertools::Itertools::interleave': 'interleave',
-    'std::iter::zip': 'zip',
+    'std::iter::zip': 'zip', 'itertools::interleave': 'interleave', 'itertools::zip': 'zip', 'itertools::chain': 'chain',
 }
 ADAPT = {
     'std::iter::Iterator::rev', 'std::iter::Iterator::skip', 'std::iter::Iterator::take', 'std::iter::Iterator::step_by',
@@ -157,7 +157,7 @@ PROPAGATORS = {
     'std::iter::Iterator::collect', 'std::iter::Iterator::flatten', 'std::iter::Iterator::flat_map',
     'std::iter::Iterator::for_each|no', 'std::iter::DoubleEndedIterator::next_back', 'std::iter::Iterator::skip_while',
     'std::iter::Iterator::take_while', 'rand_core::CryptoRngCore::as_rngcore', 'std::iter::Iterator::peekable',
-    'core::slice::<impl [T]>::chunks_exact_mut', 'std::iter::zip',
+    'core::slice::<impl [T]>::chunks_exact_mut', 'std::iter::zip', 'itertools::interleave', 'itertools::zip', 'itertools::chain',
 }
 META_ONLY = {
     'core::slice::<impl [T]>::len', 'std::vec::Vec::<T, A>::len', 'core::slice::<impl [T]>::is_empty',
